@@ -44,7 +44,7 @@ func TestMain(m *testing.M) {
 	}
 }
 
-const c17AppRule = "; plus, at application level (displayrtcm3 in-package harness, default schedule): the start time is produced by the program's own getTime from its command-line argument and handed to the shipped HandleMessages with a stream of four header-only MSM7 frames (GPS, GLONASS, Galileo, BeiDou): host time zone {UTC, +1, +5:30, +9, +13, -5, -11} x observation instant {Sunday 00:01, Wednesday 12:00, Saturday 20:00 UTC} x argument {each of the 7 dates of the week as yyyy-mm-dd; the same instants and two others in RFC3339 form with Z, +05:00 and -08:00 offsets}; every 'Time' line of a constellation whose precondition holds must show the true observation time"
+const c17AppRule = "; plus, at application level (displayrtcm3 in-package harness, default schedule): the start time is produced by the program's own getTime from its command-line argument and handed to the shipped HandleMessages with a stream of four header-only MSM7 frames (GPS, GLONASS, Galileo, BeiDou): host time zone {UTC, +1, +5:30, +9, +13, -5, -11} x host clock {in the week of the data; for zones UTC and +13 also 3 years before and 3 years after it} x observation instant {Sunday 00:01, Wednesday 12:00, Saturday 20:00 UTC} x argument {each of the 7 dates of the week as yyyy-mm-dd; the same instants and two others in RFC3339 form with Z, +05:00 and -08:00 offsets}; every 'Time' line of a constellation whose precondition holds must show the true observation time"
 
 // scenariosC17: "displaying a recorded file with any date of that week" through
 // the program's own argument parsing, on hosts in different time zones.
@@ -71,66 +71,75 @@ func scenariosC17(tier string) []*mcrt.Scenario {
 		}
 	}
 	cons := []ref.Constellation{ref.GPS, ref.Glonass, ref.Galileo, ref.Beidou}
-	for _, z := range zones {
-		for _, u := range obs {
-			for _, a := range args {
-				z, u, a := z, u, a
-				var stream []byte
-				for _, c := range cons {
-					stream = append(stream, ref.HeaderOnlyMSM(c.MSMType(true), c.Timestamp(u))...)
+	// the host's clock: in the week of the data, years before it (a board without a
+	// battery-backed clock), years after it (a recording displayed later)
+	clocks := []time.Time{time.Date(2023, 5, 10, 12, 0, 0, 0, time.UTC), time.Date(2020, 1, 1, 0, 0, 0, 0, time.UTC), time.Date(2026, 10, 1, 8, 0, 0, 0, time.UTC)}
+	for ci, clock := range clocks {
+		for _, z := range zones {
+			for _, u := range obs {
+				for _, a := range args {
+					if ci > 0 && (z.off != 0 && z.off != 13*3600) {
+						continue
+					}
+					z, u, a, clock := z, u, a, clock
+					var stream []byte
+					for _, c := range cons {
+						stream = append(stream, ref.HeaderOnlyMSM(c.MSMType(true), c.Timestamp(u))...)
+					}
+					scs = append(scs, &mcrt.Scenario{
+						Name:        fmt.Sprintf("displayrtcm3 date-argument zone=%s arg=%s observation=%s host-clock=%s", z.name, a.text, u.Format("Mon15:04"), clock.Format("2006-01-02")),
+						DefaultOnly: true, Horizon: 200000,
+						Body: func(x *mcrt.X) {
+							o := &obsT{out: &hsink.Sink{Name: "stdout"}}
+							x.Data = o
+							mcrt.SetClock(clock)
+							saved := time.Local
+							time.Local = time.FixedZone(z.name, z.off)
+							defer func() { time.Local = saved }()
+							start, err := getTime(a.text)
+							if err != nil {
+								o.atReturn = []byte("getTime: " + err.Error())
+								return
+							}
+							HandleMessages(start, &hsink.ChunkReader{Data: stream, Reset: true, Sizes: []int{0}}, o.out, &jsonconfig.Config{})
+							o.atReturn = append([]byte{}, o.out.Buf...)
+							o.returned = true
+						},
+						Check: func(x *mcrt.X) *mcrt.Failure {
+							o := x.Data.(*obsT)
+							if len(x.Panics) > 0 {
+								p := x.Panics[0]
+								return &mcrt.Failure{Kind: "panic in " + p.Thread + ": " + first(p.Value) + " @" + p.Site, Detail: p.Stack}
+							}
+							if !o.returned {
+								return &mcrt.Failure{Kind: "date-argument-not-accepted-or-no-return", Detail: string(o.atReturn) + " end=" + x.End}
+							}
+							var times []string
+							for _, l := range strings.Split(string(o.atReturn), "\n") {
+								if strings.HasPrefix(l, "Time ") {
+									times = append(times, strings.TrimPrefix(l, "Time "))
+								}
+							}
+							if len(times) != len(cons) {
+								return &mcrt.Failure{Kind: "time-lines-missing", Detail: fmt.Sprintf("%d 'Time' lines for %d MSM messages", len(times), len(cons))}
+							}
+							judged := 0
+							for i, c := range cons {
+								if !c.WeekStart(a.at).Equal(c.WeekStart(u)) {
+									continue // the argument is not in this constellation's week of the data
+								}
+								judged++
+								want := u.Format(utils.DateLayout)
+								if times[i] != want {
+									return &mcrt.Failure{Kind: "reported-time-wrong-for-a-date-of-the-same-week constellation=" + ref.ConstNames[c],
+										Detail: fmt.Sprintf("argument %q on a host in zone %s: reported %q, true %q", a.text, z.name, times[i], want)}
+								}
+							}
+							harness.Outcome(fmt.Sprintf("date argument accepted, %d constellations judged", judged))
+							return nil
+						},
+					})
 				}
-				scs = append(scs, &mcrt.Scenario{
-					Name:        fmt.Sprintf("displayrtcm3 date-argument zone=%s arg=%s observation=%s", z.name, a.text, u.Format("Mon15:04")),
-					DefaultOnly: true, Horizon: 200000,
-					Body: func(x *mcrt.X) {
-						o := &obsT{out: &hsink.Sink{Name: "stdout"}}
-						x.Data = o
-						saved := time.Local
-						time.Local = time.FixedZone(z.name, z.off)
-						defer func() { time.Local = saved }()
-						start, err := getTime(a.text)
-						if err != nil {
-							o.atReturn = []byte("getTime: " + err.Error())
-							return
-						}
-						HandleMessages(start, &hsink.ChunkReader{Data: stream, Reset: true, Sizes: []int{0}}, o.out, &jsonconfig.Config{})
-						o.atReturn = append([]byte{}, o.out.Buf...)
-						o.returned = true
-					},
-					Check: func(x *mcrt.X) *mcrt.Failure {
-						o := x.Data.(*obsT)
-						if len(x.Panics) > 0 {
-							p := x.Panics[0]
-							return &mcrt.Failure{Kind: "panic in " + p.Thread + ": " + first(p.Value) + " @" + p.Site, Detail: p.Stack}
-						}
-						if !o.returned {
-							return &mcrt.Failure{Kind: "date-argument-not-accepted-or-no-return", Detail: string(o.atReturn) + " end=" + x.End}
-						}
-						var times []string
-						for _, l := range strings.Split(string(o.atReturn), "\n") {
-							if strings.HasPrefix(l, "Time ") {
-								times = append(times, strings.TrimPrefix(l, "Time "))
-							}
-						}
-						if len(times) != len(cons) {
-							return &mcrt.Failure{Kind: "time-lines-missing", Detail: fmt.Sprintf("%d 'Time' lines for %d MSM messages", len(times), len(cons))}
-						}
-						judged := 0
-						for i, c := range cons {
-							if !c.WeekStart(a.at).Equal(c.WeekStart(u)) {
-								continue // the argument is not in this constellation's week of the data
-							}
-							judged++
-							want := u.Format(utils.DateLayout)
-							if times[i] != want {
-								return &mcrt.Failure{Kind: "reported-time-wrong-for-a-date-of-the-same-week constellation=" + ref.ConstNames[c],
-									Detail: fmt.Sprintf("argument %q on a host in zone %s: reported %q, true %q", a.text, z.name, times[i], want)}
-							}
-						}
-						harness.Outcome(fmt.Sprintf("date argument accepted, %d constellations judged", judged))
-						return nil
-					},
-				})
 			}
 		}
 	}
